@@ -13,6 +13,24 @@ package aa
 //@   opt prop=C02
 //@   trusted
 //@   opt storefirst=pkg/aa.inHeader
+//@   assigns f.Preamble, f.Profiles
+//@   ensures forall(k, 0, len(f.Profiles), f.Profiles[k] != nil)
+//@   ensures forall2(a, b, 0 <= a && a < b && b < len(f.Profiles), f.Profiles[a] != f.Profiles[b])
+
+// Rules.Sort and Rules.String as used by the directives: Sort returns the same rules (it
+// permutes them in place), String renders them (any text); neither writes a rule.
+//@ func (Rules).Sort
+//@   opt prop=C07
+//@   trusted
+//@   assigns nothing
+//@   ensures len(result) == len(r)
+//@   ensures forall_ref(x, mem(result, x) == mem(r, x))
+
+//@ func (Rules).String
+//@   opt prop=C07
+//@   trusted
+//@   assigns nothing
+//@   ensures imp(len(r) > 0, len(result) > 0)
 
 // DefaultTunables hands out a preamble of its own: the file object and every rule in it
 // are newly allocated by the call (none existed before it), so that Resolve, which edits
